@@ -86,6 +86,23 @@ theorem turn_effect (fuel : Nat) (p : Proc) (k : List Bytes) :
       · simp
       · have := ih { p with pending := rest }
         simpa using this
+    · simp
+    · rename_i pre kids rest hp
+      dsimp only
+      split
+      · have := ih { p with pending := rest, busy := true }
+        simpa using this
+      · split
+        · have := ih { p with pending := rest }
+          simpa using this
+        · have := ih { p with pending := (List.map Act.umount
+              (sortBy bytesLt (List.filter (atOrBelow pre) p.snap)).reverse ++ [Act.probe] ++ rest) }
+          simpa using this
+    · rename_i rest hp
+      split
+      · simp
+      · have := ih { p with pending := rest }
+        simpa using this
     · rename_i t rest hp
       split
       · simp
@@ -131,7 +148,7 @@ theorem chroot_mounted_no_mount (fuel : Nat) (p : Proc) (layers : List (List Byt
     kernel interactions, same final process state (Layerdefs.Chroot → Layerdefs.Mount) -/
 theorem chroot_unmounted_as_mount (fuel : Nat) (p q : Proc) (layers : List (List Bytes)) (k : List Bytes)
     (hp : p.pending = chrootChainActs layers) (hq : q.pending = mountChainActs layers)
-    (hf : q.failed = p.failed)
+    (hf : q.failed = p.failed) (hs : q.snap = p.snap) (hb : q.busy = p.busy)
     (hk : ¬ ∀ x, x ∈ layers.getLast?.getD [] → x ∈ k) :
     turn (fuel + 2) (turn (fuel + 1) p k).1 k = turn (fuel + 1) (turn (fuel + 1) q k).1 k := by
   have h1 : turn (fuel + 1) p k =
@@ -144,6 +161,31 @@ theorem chroot_unmounted_as_mount (fuel : Nat) (p q : Proc) (layers : List (List
   rw [h1, h2]
   have hc : (∀ x, x ∈ layers.getLast?.getD [] → x ∈ k) = False := eq_false hk
   conv => lhs; unfold turn
-  simp [hc, hf]
+  simp [hc, hf, hs, hb]
+
+/-- `umount -all` skips a layer on which the latest reading of the table shows a child's
+    overlay: no unmount call for it, no kernel interaction, the command is marked busy -/
+theorem allLayer_busy_skipped (fuel : Nat) (p : Proc) (pre : Bytes) (kids : List Bytes) (rest : List Act)
+    (k : List Bytes) (hp : p.pending = .allLayer pre kids :: rest)
+    (hk : kids.any p.cache.contains = true) :
+    turn (fuel + 1) p k = turn fuel { p with pending := rest, busy := true } k := by
+  simp only [turn, hp]
+  rw [if_pos hk]
+
+/-- … and a layer of which the FIRST reading showed no mount is passed over without any
+    kernel interaction either (its list of mounts is not refreshed: a mount another process
+    made meanwhile is left alone — and the race of finding `no-lock-between-check-and-mount`
+    is exactly that such a mount can appear after the check) -/
+theorem allLayer_unmounted_passed (fuel : Nat) (p : Proc) (pre : Bytes) (kids : List Bytes) (rest : List Act)
+    (k : List Bytes) (hp : p.pending = .allLayer pre kids :: rest)
+    (hk : kids.any p.cache.contains = false) (hs : p.snap.filter (atOrBelow pre) = []) :
+    turn (fuel + 1) p k = turn fuel { p with pending := rest } k := by
+  simp [turn, hp, hk, hs, sortBy]
+
+/-- a command that skipped a busy layer ends in failure without touching the table -/
+theorem failIfBusy_fails (fuel : Nat) (p : Proc) (rest : List Act) (k : List Bytes)
+    (hp : p.pending = .failIfBusy :: rest) (hb : p.busy = true) :
+    turn (fuel + 1) p k = ({ p with pending := [], failed := true }, k) := by
+  simp [turn, hp, hb]
 
 end Lc.Props.C20
